@@ -13,12 +13,12 @@ from vlib.lab import Lab
 PROPERTY_ID = "C11"
 LEVEL = "exploration"
 RULE = (
-    "Generated: 1-4 (thorough 1-5) inner traced sources (cold / synchronous / hot; 0-4 (thorough 0-6) distinct ints each so every element names its "
+    "Generated: 1-4 (thorough 1-5) inner traced sources (cold / synchronous / hot / hot backed by a real Subject, whose late subscribers get its terminal at once; 0-4 (thorough 0-6) distinct ints each so every element names its "
     "inner, gaps 0-3, terminal completion / error / none = never completes) and an outer timeline (cold / synchronous / "
     "hot, 0-5 (thorough 0-7) elements selecting inners, possibly the same inner several times, terminal completion / error / none); "
     "forms merge_all, merge(max_concurrent=1..4), flat_map (mapper and constant-observable forms), flat_map_indexed, "
     "concat_map, and the n-ary reactivex.merge(...) / ops.merge(...) forms (outer = the argument list); subscribed at a "
-    "generated tick on the virtual scheduler (n-ary forms also through the default trampoline); half of the 'limited' "
+    "generated tick on the virtual scheduler (TestScheduler, one case in five on a HistoricalScheduler with 1 ms ticks; n-ary forms also through the default trampoline); half of the 'limited' "
     "cases use a saturation shape (slow inners fill max_concurrent, queued inners that complete synchronously inside "
     "their own subscribe, outer completing early). Oracle: an independent "
     "discrete-event reference (plain Python, own priority queue) of 'merge with optional concurrency limit and FIFO "
@@ -33,6 +33,7 @@ RULE = (
     "probe (and the first) is judged by the same oracle with its own subscribe tick. Non-trivial: >= 2 inner subscriptions with overlapping lifetimes, or an inner was queued."
 )
 ASSUMPTIONS = [
+    "a Subject-backed inner (kind subject) delivers its terminal at once to a subscriber that arrives after, or during the dispatch of, that terminal (documented Subject behaviour)",
     "inner sources are conforming; a subscription counts as active until its own terminal was delivered or it was unsubscribed",
     "subscriptions opened after the output already terminated (a synchronous outer still unwinding) are not judged here (C02/C03)",
     "mapper functions are total and pure (C09 covers raising mappers)",
@@ -131,7 +132,7 @@ def _run(case):
     if sec:
         ref = simulate(_outer_spec(case), case["inners"], _resolver(case), t0, "fifo", "merge", maxc)
         mode2, t2 = second_tick(sec, t0, ref.term[0] if ref.term else None)
-    lab = Lab()
+    lab = Lab("hist", tick_s=0.001) if case.get("clock") == "hist" else Lab()
     inners = [TSource(lab, spec, f"i{i}") for i, spec in enumerate(case["inners"])]
     o, outer = build(case, lab, inners)
     p = lab.probe()
@@ -186,7 +187,14 @@ def _run(case):
     pol, op = chosen
 
     # evidence classes
-    cls = [form, "policy:" + pol]
+    cls = [form, "policy:" + pol, "clock:" + case.get("clock", "test")]
+    ssrc = [x for x in op.inners if x.kind == "subject" and x.handles]
+    if ssrc:
+        cls.append("subject-inner")
+        if any(x.sub_during_own_terminal for x in ssrc):
+            cls.append("subject-inner:subscribed-during-its-own-terminal-dispatch")
+        if any(x.late_subs for x in ssrc):
+            cls.append("subject-inner:late-subscriber-gets-terminal")
     if sec:
         cls.append("2nd-subscription:" + mode2 + ("" if separable or mode2 == "overlap" else "(first-still-running)"))
         if p2.events:
@@ -240,9 +248,18 @@ def _run(case):
 # ---------------------------------------------------------------------------------------
 
 
+_KINDS = ("cold", "cold", "sync", "hot", "subject")
+
+
+def _clock(draw, c):
+    if draw(st.integers(0, 4)) == 0:
+        c["clock"] = "hist"
+    return c
+
+
 @st.composite
 def _cases(draw, forms, big=False):
-    inn = draw(inner_specs(max_inners=5, max_len=6) if big else inner_specs())
+    inn = draw(inner_specs(max_inners=5, max_len=6, kinds=_KINDS) if big else inner_specs(kinds=_KINDS))
     form = draw(st.sampled_from(forms))
     c = {"form": form, "inners": inn, "t0": draw(st.integers(0, 3))}
     if form in FORMS_NARY:
@@ -257,7 +274,7 @@ def _cases(draw, forms, big=False):
             c["maxc"] = draw(st.sampled_from([1, 2, 2, 3, 1, 4]))
         if form == "flat_map_const":
             c["const"] = draw(st.integers(0, len(inn) - 1))
-    return draw_second(draw, c)
+    return _clock(draw, draw_second(draw, c))
 
 
 @st.composite
@@ -267,7 +284,7 @@ def _saturated(draw):
     c = {"form": form, "inners": sc["inners"], "t0": draw(st.integers(0, 3)), "outer": sc["outer"]}
     if form == "merge_mc":
         c["maxc"] = sc["maxc"]
-    return draw_second(draw, c)
+    return _clock(draw, draw_second(draw, c))
 
 
 def checks(tier):
